@@ -6,6 +6,10 @@
 
 package bluemonday
 
+//@ func bluemonday.isVoidElement
+//@   modifies nothing
+//@   ensures result <==> isVoid(elementName)
+
 //@ func (*bluemonday.Policy).allowNoAttrs
 //@   reveal[C14] wfRegex
 //@   requires wfp(p)
